@@ -1,5 +1,15 @@
-(* C07/Refuted.v -- full statements of the property that the faithful model (= the code) violates,
-   with machine-checked witnesses.  These are the known findings F-C07-1 and F-C07-2. *)
+(* C07/Refuted.v -- what is left to refute after the fixes of F-C07-1 and F-C07-2, and regression facts.
+
+   Both findings are fixed in /repo (both writers remember a torn Write and refuse later writes; both re-check
+   ctx.Err() after the select), the model follows the repaired code, and the statements that used to be refuted
+   here are theorems of Props.v now (C07_*_nothing_after_partial, C07_direct_wire_shape without hypothesis,
+   C07_*_ctx_done_leaves_nothing).  The schedules that were the witnesses are kept as regression examples: the
+   repaired model refuses the second writer.
+
+   The one remaining hypothesis about the environment - the connection honours the io.Writer contract - is
+   necessary for the coalescer's wire shape (net.Buffers.WriteTo goes on with the next buffer after a short
+   count with a nil error); that is shown here.  It is a fact about the standard library and a misbehaving
+   connection, not a defect of the driver. *)
 From GocqlV Require Import Lib.Base C07.Model C07.Spec C07.Proofs1.
 Local Open Scope nat_scope.
 
@@ -39,83 +49,50 @@ Proof.
 Qed.
 
 (* ---------------------------------------------------------------------------------------------- *)
-(* F-C07-1, direct writer.  Request 0 (frame 10 11 12) gets the semaphore, request 1 (frame 20 21) is
-   registered and waits.  Request 0's Write accepts one byte and fails; the semaphore is released; request 1
-   acquires it and writes its whole frame -- before request 0's exec has reached closeWithError. *)
+(* regression: the former witnesses of F-C07-1 *)
 
-Definition f1_direct : list dlabel :=
-  [DCall [10; 11; 12]%Z; DCall [20; 21]%Z; DAcquire 0; DStartWrite 0 None; DChunk 0 1; DWriteRet 0 (Some (EOther 5));
-   DAcquire 1; DStartWrite 1 None; DChunk 1 2; DWriteRet 1 None].
+(* direct writer: request 0's Write is torn after one byte; request 1, already registered, gets the semaphore and
+   is refused with request 0's error; nothing of it is written *)
+Example C07_direct_after_partial_refused :
+  exists s, drun true d_init
+      [DCall [10; 11; 12]%Z; DCall [20; 21]%Z; DAcquire 0; DStartWrite 0 None; DChunk 0 1; DWriteRet 0 (Some (EOther 5));
+       DAcquire 1] = Some s
+    /\ result_of (d_thr s) 1 = Some (0, Some (EOther 5)) /\ map snd (d_wire s) = [10%Z]
+    /\ dstep true s (DStartWrite 1 None) = None.
+Proof. eexists. split; [vm_compute; reflexivity|]. repeat split. Qed.
 
-(* "after a partial write no further frame is written on that connection": refuted *)
-Theorem C07_direct_nothing_after_partial_refuted :
-  exists ls1 ls2 s1 s2,
-    drun true d_init ls1 = Some s1 /\ d_torn s1 = true /\ d_broken s1 = false /\
-    drun true s1 ls2 = Some s2 /\ d_broken s2 = false /\ d_wire s2 <> d_wire s1.
-Proof.
-  exists (firstn 6 f1_direct), (skipn 6 f1_direct).
-  eexists. eexists. split; [vm_compute; reflexivity|]. split; [reflexivity|]. split; [reflexivity|].
-  split; [vm_compute; reflexivity|]. split; [reflexivity|]. vm_compute. discriminate.
-Qed.
+(* coalescer: request 1 is received by the flusher after the torn flush and answered at once *)
+Example C07_coal_after_partial_refused :
+  exists s, crun true c_init
+      [CCall [10; 11; 12]%Z; CCall [20; 21]%Z; CEnqueue 0; FTimer; FStartWrite None; FChunk 1; FWriteRet (Some (EOther 5));
+       CEnqueue 1] = Some s
+    /\ result_of (c_thr s) 1 = Some (0, Some (EOther 5)) /\ map snd (c_wire s) = [10%Z]
+    /\ cstep true s FTimer = None.
+Proof. eexists. split; [vm_compute; reflexivity|]. repeat split. Qed.
 
-(* "the stream is whole frames possibly followed by one incomplete frame": refuted in the same run, with a
-   connection that honoured the io.Writer contract *)
-Theorem C07_direct_wire_shape_refuted :
-  exists ls s, drun true d_init ls = Some s /\ d_broken s = false /\
-               ~ wire_shape (frame_of (d_thr s)) (d_wire s).
-Proof.
-  exists f1_direct. eexists. split; [vm_compute; reflexivity|]. split; [reflexivity|].
-  intros Hs. apply (wire_shape_torn_last _ _ 0) in Hs; [|vm_compute; lia].
-  destruct Hs as [w' [x Hx]]. vm_compute in Hx.
-  apply (f_equal (@rev (nat * Z))) in Hx. rewrite rev_app_distr in Hx. simpl in Hx. discriminate.
-Qed.
+(* regression: the former witnesses of F-C07-2: the request whose context is done gets ctx.Err() and writes nothing *)
+Example C07_direct_ctx_done_refused :
+  exists s, drun true d_init [DCall [10; 11]%Z; DCtxDone 0 ECanceled; DAcquire 0] = Some s
+    /\ result_of (d_thr s) 0 = Some (0, Some ECanceled) /\ d_wire s = [] /\ d_sem s = None.
+Proof. eexists. split; [vm_compute; reflexivity|]. repeat split. Qed.
 
-(* F-C07-1, coalescer.  Request 0 is flushed alone and torn; request 1, registered before, is received by the
-   flusher afterwards and flushed whole. *)
-Definition f1_coal : list clabel :=
-  [CCall [10; 11; 12]%Z; CCall [20; 21]%Z; CEnqueue 0; FTimer; FStartWrite None; FChunk 1; FWriteRet (Some (EOther 5));
-   CEnqueue 1; FTimer; FStartWrite None; FChunk 2; FWriteRet None].
-
-Theorem C07_coal_nothing_after_partial_refuted :
-  exists ls1 ls2 s1 s2,
-    crun true c_init ls1 = Some s1 /\ c_torn s1 = true /\ c_broken s1 = false /\
-    crun true s1 ls2 = Some s2 /\ c_broken s2 = false /\ c_wire s2 <> c_wire s1.
-Proof.
-  exists (firstn 7 f1_coal), (skipn 7 f1_coal).
-  eexists. eexists. split; [vm_compute; reflexivity|]. split; [reflexivity|]. split; [reflexivity|].
-  split; [vm_compute; reflexivity|]. split; [reflexivity|]. vm_compute. discriminate.
-Qed.
-
-Theorem C07_coal_wire_shape_refuted :
-  exists ls s, crun true c_init ls = Some s /\ c_broken s = false /\
-               ~ wire_shape (frame_of (c_thr s)) (c_wire s).
-Proof.
-  exists f1_coal. eexists. split; [vm_compute; reflexivity|]. split; [reflexivity|].
-  intros Hs. apply (wire_shape_torn_last _ _ 0) in Hs; [|vm_compute; lia].
-  destruct Hs as [w' [x Hx]]. vm_compute in Hx.
-  apply (f_equal (@rev (nat * Z))) in Hx. rewrite rev_app_distr in Hx. simpl in Hx. discriminate.
-Qed.
+Example C07_coal_ctx_done_refused :
+  exists s, crun true c_init [CCall [10; 11]%Z; CCtxDone 0 EDeadlineExceeded; CEnqueue 0] = Some s
+    /\ result_of (c_thr s) 0 = Some (0, Some EDeadlineExceeded) /\ c_wire s = [] /\ c_queue s = [].
+Proof. eexists. split; [vm_compute; reflexivity|]. repeat split. Qed.
 
 (* ---------------------------------------------------------------------------------------------- *)
-(* F-C07-2.  "A request whose context ended before writing began leaves no bytes": the select may take the
-   semaphore / writeCh branch although ctx.Done() is ready. *)
+(* the io.Writer contract is needed for the coalescer's wire shape: a connection that returns a short count with a
+   nil error makes WriteTo write the next buffer behind the torn one *)
 
-Theorem C07_direct_ctx_done_leaves_nothing_refuted :
-  exists ls1 ls2 s1 s t,
-    drun true d_init ls1 = Some s1 /\ pc_of (d_thr s1) t = Some PSelect /\
-    drun true s1 (DCtxDone t :: ls2) = Some s /\ bytes_of t (d_wire s) <> [].
+Theorem C07_coal_wire_shape_without_contract_refuted :
+  exists ls s, crun true c_init ls = Some s /\ c_broken s = true /\
+               ~ wire_shape (frame_of (c_thr s)) (c_wire s).
 Proof.
-  exists [DCall [10; 11]%Z], [DAcquire 0; DStartWrite 0 None; DChunk 0 2; DWriteRet 0 None].
-  eexists. eexists. exists 0. split; [vm_compute; reflexivity|]. split; [reflexivity|].
-  split; [vm_compute; reflexivity|]. vm_compute. discriminate.
-Qed.
-
-Theorem C07_coal_ctx_done_leaves_nothing_refuted :
-  exists ls1 ls2 s1 s t,
-    crun true c_init ls1 = Some s1 /\ pc_of (c_thr s1) t = Some PSelect /\
-    crun true s1 (CCtxDone t :: ls2) = Some s /\ bytes_of t (c_wire s) <> [].
-Proof.
-  exists [CCall [10; 11]%Z], [CEnqueue 0; FTimer; FStartWrite None; FChunk 2; FWriteRet None].
-  eexists. eexists. exists 0. split; [vm_compute; reflexivity|]. split; [reflexivity|].
-  split; [vm_compute; reflexivity|]. vm_compute. discriminate.
+  exists [CCall [10; 11; 12]%Z; CCall [20; 21]%Z; CEnqueue 0; CEnqueue 1; FTimer; FStartWrite None;
+          FChunk 1; FWriteRet None; FChunk 2; FWriteRet None].
+  eexists. split; [vm_compute; reflexivity|]. split; [reflexivity|].
+  intros Hs. apply (wire_shape_torn_last _ _ 0) in Hs; [|vm_compute; lia].
+  destruct Hs as [w' [x Hx]]. vm_compute in Hx.
+  apply (f_equal (@rev (nat * Z))) in Hx. rewrite rev_app_distr in Hx. simpl in Hx. discriminate.
 Qed.
